@@ -209,6 +209,21 @@ theorem step_issued (w : World V) (net : Net V) (st : Step V) (a : Nat) (r : Cal
           exact h
         · rw [Net.upd_cl_ne _ _ _ ha] at h; exact h
     · exact h
+  | expire c s0 =>
+    left
+    simp only [step] at h
+    split at h
+    · unfold expireStep at h
+      cases hp : pLookup (net.cl c).pending s0 with
+      | none => simpa [hp] using h
+      | some v =>
+        simp only [hp] at h
+        by_cases ha : a = c
+        · subst ha
+          simp only [Net.upd_cl_same] at h
+          exact h
+        · rw [Net.upd_cl_ne _ _ _ ha] at h; exact h
+    · exact h
 
 theorem step_answers (w : World V) (net : Net V) (st : Step V) (j : Nat) (x : Option Nat × Nat × Answer V)
     (h : x ∈ ((step w net st).cl j).answers) :
@@ -279,6 +294,21 @@ theorem step_answers (w : World V) (net : Net V) (st : Step V) (j : Nat) (x : Op
             exact ⟨tok, by rw [h3]⟩
         · rw [Net.upd_cl_ne _ _ _ ha] at h; exact Or.inl h
     · exact Or.inl h
+  | expire c s0 =>
+    left
+    simp only [step] at h
+    split at h
+    · unfold expireStep at h
+      cases hp : pLookup (net.cl c).pending s0 with
+      | none => simpa [hp] using h
+      | some v =>
+        simp only [hp] at h
+        by_cases ha : j = c
+        · subst ha
+          simp only [Net.upd_cl_same] at h
+          exact h
+        · rw [Net.upd_cl_ne _ _ _ ha] at h; exact h
+    · exact h
 
 theorem run_issued (w : World V) (steps : List (Step V)) (net : Net V) (a : Nat) (r : CallRec V)
     (h : r ∈ ((run w net steps).cl a).issued) :
@@ -314,5 +344,125 @@ theorem run_answers (w : World V) (steps : List (Step V)) (net : Net V) (j : Nat
       rcases g so nr res hr with e | ⟨tok, e⟩
       · left; exact List.mem_cons_of_mem _ e
       · right; exact ⟨tok, List.mem_cons_of_mem _ e⟩
+
+theorem receive_completions (w : World V) (j : Nat) (cl : Client V) (m : Msg V) (beh : Behaviour V)
+    (x : Nat × Outcome V) (hx : x ∈ (receive w j cl m beh).completions) :
+    x ∈ cl.completions ∨ x.2.isTimeout = false := by
+  cases m with
+  | call n sender dest p i mem g args =>
+    left
+    simp only [receive, dispatch] at hx
+    cases hck : check w j p i mem g with
+    | builtin sg b => simpa [hck, sendAnswer] using hx
+    | refused nm t => simpa [hck, sendAnswer] using hx
+    | run ifc md fn =>
+      cases beh with
+      | now r => simpa [hck, sendAnswer] using hx
+      | deferred => simpa [hck] using hx
+  | reply sn rs sender dest content =>
+    simp only [receive, complete] at hx
+    cases hp : pLookup cl.pending rs with
+    | none => left; simpa [hp] using hx
+    | some v =>
+      simp only [hp, List.mem_append, List.mem_singleton] at hx
+      rcases hx with hx | hx
+      · exact Or.inl hx
+      · right; rw [hx]; exact outcomeOf_not_timeout _ _
+
+theorem step_completions (w : World V) (net : Net V) (st : Step V) (a : Nat) (x : Nat × Outcome V)
+    (h : x ∈ ((step w net st).cl a).completions) :
+    x ∈ (net.cl a).completions ∨ x.2.isTimeout = false ∨ st = .expire a x.1 := by
+  cases st with
+  | call c req =>
+    left
+    simp only [step] at h
+    split at h
+    · by_cases ha : a = c
+      · subst ha
+        simp only [Net.upd_cl_same] at h
+        rcases issue_cases w (net.cl a) req with e | ⟨r, _, e⟩
+        · rw [e] at h; exact h
+        · rw [e] at h; exact h
+      · rw [Net.upd_cl_ne _ _ _ ha] at h; exact h
+    · exact h
+  | toBus c =>
+    left
+    simp only [step] at h
+    split at h
+    · rw [busStep_eq] at h
+      cases hup : (net.cl c).up with
+      | nil => simpa [hup] using h
+      | cons m rest =>
+        simp only [hup] at h
+        cases hd : (m.withSender c).dest with
+        | none => simp only [hd, drp_completions] at h; exact h
+        | some d =>
+          simp only [hd] at h
+          split at h
+          · rw [fwd_completions] at h; exact h
+          · rw [drp_completions] at h; exact h
+    · exact h
+  | toClient c beh =>
+    simp only [step] at h
+    split at h
+    · unfold clientStep at h
+      cases hdown : (net.cl c).down with
+      | nil => left; simpa [hdown] using h
+      | cons m rest =>
+        simp only [hdown] at h
+        by_cases ha : a = c
+        · subst ha
+          simp only [Net.upd_cl_same] at h
+          rcases receive_completions w a _ m beh x h with g | g
+          · exact Or.inl g
+          · exact Or.inr (Or.inl g)
+        · rw [Net.upd_cl_ne _ _ _ ha] at h; exact Or.inl h
+    · exact Or.inl h
+  | resolve c tok res =>
+    left
+    simp only [step] at h
+    split at h
+    · unfold resolveStep at h
+      cases ht : takeExec tok (net.cl c).exec with
+      | none => simpa [ht] using h
+      | some pr =>
+        simp only [ht] at h
+        by_cases ha : a = c
+        · subst ha
+          simp only [Net.upd_cl_same, sendAnswer] at h
+          exact h
+        · rw [Net.upd_cl_ne _ _ _ ha] at h; exact h
+    · exact h
+  | expire c s0 =>
+    simp only [step] at h
+    split at h
+    · unfold expireStep at h
+      cases hp : pLookup (net.cl c).pending s0 with
+      | none => left; simpa [hp] using h
+      | some v =>
+        simp only [hp] at h
+        by_cases ha : a = c
+        · subst ha
+          simp only [Net.upd_cl_same, List.mem_append, List.mem_singleton] at h
+          rcases h with h | h
+          · exact Or.inl h
+          · right; right; rw [h]
+        · rw [Net.upd_cl_ne _ _ _ ha] at h; exact Or.inl h
+    · exact Or.inl h
+
+theorem run_completions (w : World V) (steps : List (Step V)) (net : Net V) (a : Nat) (x : Nat × Outcome V)
+    (h : x ∈ ((run w net steps).cl a).completions) :
+    x ∈ (net.cl a).completions ∨ x.2.isTimeout = false ∨ Step.expire a x.1 ∈ steps := by
+  induction steps generalizing net with
+  | nil => exact Or.inl h
+  | cons st rest ih =>
+    have h' : x ∈ ((run w (step w net st) rest).cl a).completions := h
+    rcases ih _ h' with g | g | g
+    · rcases step_completions w net st a x g with g | g | g
+      · exact Or.inl g
+      · exact Or.inr (Or.inl g)
+      · right; right; rw [g]; exact List.mem_cons_self
+    · exact Or.inr (Or.inl g)
+    · right; right; exact List.mem_cons_of_mem _ g
 
 end Txdbus.Net
